@@ -209,3 +209,13 @@ pub proof fn lemma_run_msgs_one<E, Q, R: CosmosRouter<E, Q>>(router: R, s0: St, 
 //@   begin proof { assert forall|sq: Seq<CosmosMsg<CustomT::ExecT>>| sq.len() == 1 implies #[trigger] run_msgs(self.router, self.storage.view(), self.block, sender, sq) == ((match self.router.exec_sem(self.storage.view(), self.block, sender, sq[0]).0 { Ok(a) => Ok(seq![a]), Err(e) => Err(e) }), self.router.exec_sem(self.storage.view(), self.block, sender, sq[0]).1) by { lemma_run_msgs_one(self.router, self.storage.view(), self.block, sender, sq); } }
 //@ end
 }
+
+//@ impl_open src/app.rs :: App
+//@   pick fn init_modules
+//@ end
+//@ fn src/app.rs :: App :: init_modules
+//@   ret r
+//@   requires [C20.app.init_pre] forall|r0: &mut Router<BankT, CustomT, WasmT, StakingT, DistrT, IbcT, GovT, StargateT>, a: &ApiT, st: &mut dyn Storage| #[trigger] init_fn.requires((r0, a, st))
+//@   ensures [C20.app.init_modules] exists|r0: &mut Router<BankT, CustomT, WasmT, StakingT, DistrT, IbcT, GovT, StargateT>, a: &ApiT, st: &mut dyn Storage| #[trigger] init_fn.ensures((r0, a, st), r) && *r0 == old(self).router && *a == old(self).api && st.view() == old(self).storage.view() && final(self).router == *final(r0) && final(self).storage.view() == final(st).view() && final(self).api == old(self).api && final(self).block == old(self).block
+//@ end
+}
